@@ -54,7 +54,8 @@ pub fn run(run: &Run) {
     run.set_rule(
         "Generator: proptest strings for FreeformClass: 45% valid-biased (valid members + 0-2 injected: any of the 17 Zs, characters whose NFKC contains \
          a space, compatibility characters, composing sequences, cased, contextual), 40% dense space/compat/composing mixes (every Zs in first, interior, \
-         last, adjacent positions), 15% arbitrary pool strings; every Zs x {first, interior, last} templates; fixed corner cases. Oracle: model (non-empty \
+         last, adjacent positions), 15% arbitrary pool strings; every Zs x {first, interior, last} templates; fixed corner cases; ALL strings of length <= 4 (quick) / 5 (thorough) over a 28-character \
+         alphabet (spaces of 1-3 bytes, NFKC-space producers, composing pairs, compatibility characters, jamo, controls). Oracle: model (non-empty \
          -> FreeformClass reference scan -> Zs16 minus U+0020 to U+0020 -> ICU4X NFC -> non-empty), prepare returns the input itself; metamorphic: no \
          non-ASCII Zs in the result, result is NFC, inputs without non-ASCII Zs and already NFC come back byte for byte. Non-trivial: accepted and (a \
          non-ASCII space after byte offset 0, or NFC changes the string); distinct = distinct input.",
@@ -85,6 +86,14 @@ pub fn run(run: &Run) {
                 return;
             }
         }
+    });
+    enum_strings(run, "enum_alpha_free", &ALPHA_FREE, run.pick(4u32, 5u32), &|s, l| {
+        if check(run, s, l).is_err() {
+            shrink_report(run, Prof::Opaque, Op::Enforce, s);
+            shrink_report(run, Prof::Opaque, Op::Prepare, s);
+            return false;
+        }
+        true
     });
     run.prop("random", run.pick(2_000_000, 60_000_000), freeform_strings, |s, l| check(run, s, l));
 }
